@@ -695,10 +695,18 @@ def check_mechanisms(chk, idx):
     if len(exact) != 1 or len(low) != 1 or lowered[low[0]] != exact[0]:
         raise AnalysisError('NumberWithUnitParser.parse: "exact key, then lower-cased key in unit_map" idiom not recognised (%s)' % looked)
     out['connector'] = read_connector_guard(fn, exact[0], low[0])
-    bc, bfn = _own(idx, NWU + '.parsers.NumberWithUnitParser', '__delete_brackets_if_exists')
-    pairs = sorted((n.args[0].value) for n in _calls(bfn, 'startswith') if n.args and isinstance(n.args[0], ast.Constant))
-    if pairs != sorted('([{<'):
-        raise AnalysisError('NumberWithUnitParser.__delete_brackets_if_exists: bracket set changed (%s)' % pairs)
+    # which helper normalises both keys before the lookup (bracket stripping)? decided by tabulation in C05.brackets
+    helpers = {}
+    for a in ast.walk(fn):
+        if isinstance(a, ast.Assign) and len(a.targets) == 1 and isinstance(a.targets[0], ast.Name) \
+                and a.targets[0].id in (exact[0], low[0]) and isinstance(a.value, ast.Call) and _self_attr(a.value.func) \
+                and len(a.value.args) == 1 and isinstance(a.value.args[0], ast.Name) and a.value.args[0].id == a.targets[0].id:
+            helpers.setdefault(a.value.func.attr, set()).add(a.targets[0].id)
+    both = [m for m, names in helpers.items() if names == {exact[0], low[0]}]
+    if len(helpers) > 1 or (helpers and not both):
+        raise AnalysisError('NumberWithUnitParser.parse: key helpers %s are not applied to the exact and the lowered key alike'
+                            % sorted(helpers))
+    out['bracket_helper'] = both[0] if both else None
     chk.ok(R, c.mod.path, 'NumberWithUnitParser.parse',
            'key: strip; lower; when the lowered key starts with %s cut len(%s) and strip; strip one bracket pair; '
            'exact then lowered lookup' % (out['connector']['prefix_src'], out['connector']['cut_src']), fn.lineno)
@@ -911,6 +919,9 @@ def analyse_merge(cls, fn):
             elif isinstance(e, ast.Attribute) and isinstance(e.value, ast.Name) and e.value.id == 'self' and e.attr in cls.attrs \
                     and isinstance(cls.attrs[e.attr], ast.Constant):
                 d['consts'].append(cls.attrs[e.attr].value)
+            elif isinstance(e, ast.Name) and e.id not in defs and hasattr(cls, 'mod') \
+                    and isinstance(cls.mod.assigns.get(e.id), ast.Constant):
+                d['consts'].append(cls.mod.assigns[e.id].value)        # module-level constant
             elif isinstance(e, ast.Call) and isinstance(e.func, ast.Attribute) and e.func.attr == 'get' and e.args \
                     and _src(e.func.value).startswith('self.config.'):
                 slot = _src(e.func.value)[len('self.config.'):]
@@ -1186,6 +1197,8 @@ def run(chk):
              '(suffix_list + prefix_list values vs unit_map keys); tables non-empty', floor=22, control=True)
     chk.rule('C05.merge', '{**A, **B} table merges have no unit key with differing spelling lists', floor=4, control=True)
     chk.rule('C05.side', '*PrefixList tables are wired into prefix_list and *SuffixList tables into suffix_list', floor=35, control=True)
+    chk.rule('C05.brackets', "the helper parse applies to the unit key strips exactly one enclosing bracket pair of () [] {} <> "
+             '(interpreted on every key of length <= 3 over ()[]{}<>k and blank, plus longer ones)', floor=1, control=True)
     chk.rule('C05.prefix-pick', 'the prefix unit chosen left of a number is the left-most (longest) prefix match that reaches up '
              'to the number - tabulated by interpreting the selection statements of NumberWithUnitExtractor.extract on '
              'abstract match lists (all token-suffix subsets, with/without gap, decoys before and behind the number)',
@@ -1250,6 +1263,7 @@ def run(chk):
             done_p.add(pq)
             nforms += rule_shadow_key_case(ctx, p, ex, pa)
     rule_fresh(ctx)
+    rule_brackets(ctx)
     rule_prefix_pick(ctx)
     rule_ratio_use(ctx)
     rule_currency(ctx)
@@ -1803,6 +1817,70 @@ def rule_ratio_use(ctx):
         chk.observe("C05.ratio-use: bare trailing number in 'N <main> and M' is no longer divided by the constant 100 (%s)" % why)
 
 
+# ---- bracket stripping of the unit key (tabulated with sa/ointerp.py) --------------------------------------
+
+BRACKET_PAIRS = (('(', ')'), ('[', ']'), ('{', '}'), ('<', '>'))
+
+
+def bracket_strings():
+    import itertools
+    alpha = '()[]{}<>k '
+    out = ['']
+    for n in (1, 2, 3):
+        out += [''.join(t) for t in itertools.product(alpha, repeat=n)]
+    out += ['(km)', '[km]', '{km}', '<km>', '(km]', '<km)', 'k(m)', '((k))', '(k m)', '[ km ]', '(km) ', 'km', '(km', 'km)', '{k}m', '<<k>']
+    return out
+
+
+def bracket_mismatches(f):
+    """f: str -> str (the code under analysis) vs the reference strip_brackets on every tabulated string"""
+    bad = []
+    for s_ in bracket_strings():
+        got, want = f(s_), strip_brackets(s_)
+        if got != want:
+            bad.append((s_, got, want))
+    return bad
+
+
+def rule_brackets(ctx):
+    from ..ointerp import Interp, FuncRef, Obj, PyExc
+    chk, idx = ctx['chk'], ctx['idx']
+    c = idx.cls(NWU + '.parsers.NumberWithUnitParser')
+    name = ctx['mech']['bracket_helper']
+    construct = 'NumberWithUnitParser.parse: bracket stripping of the unit key'
+    if name is None:
+        bad = bracket_mismatches(lambda x: x)
+        line = c.methods['parse'].lineno
+        what = 'parse applies no helper to the unit key'
+    else:
+        k, fn = idx.find_method(c, name)
+        if fn is None:
+            raise AnalysisError('NumberWithUnitParser.%s (called by parse) not found' % name)
+        it = Interp(idx, where='C05.brackets', budget=20000)
+        selfo = Obj(c, {})
+
+        def f(x):
+            it.budget = 20000
+            try:
+                r = it.call_function(FuncRef(k.mod, fn, k), [x], {}, None, selfobj=selfo)
+            except PyExc as ex:
+                return 'raises %s' % ex
+            return r
+        bad = bracket_mismatches(f)
+        line = fn.lineno
+        what = '%s.%s' % (k.name, name)
+        construct = '%s.%s' % (k.name, name)
+    n = len(bracket_strings())
+    if bad:
+        ex = '; '.join('%r -> %r (reference %r)' % b for b in bad[:4])
+        chk.bad('C05.brackets', c.mod.path, construct, 'differs on ' + ', '.join(repr(b[0]) for b in bad[:12]),
+                "%s differs from 'strip one leading and one trailing character iff the key is enclosed by one of () [] {} <>' on "
+                '%d of %d tabulated keys: %s. The extractor accepts a unit written in such brackets after the number '
+                "('5 (km)'), so those forms are no longer found in the unit map" % (what, len(bad), n, ex), line)
+    else:
+        chk.ok('C05.brackets', c.mod.path, construct, 'equals the four-pair reference on %d keys' % n, line)
+
+
 # ---- prefix selection in NumberWithUnitExtractor.extract (tabulated with sa/ointerp.py) ---------------------
 
 def find_prefix_selection(fn):
@@ -2189,6 +2267,13 @@ def controls(chk, mech):
         st_, b_, _ = find_prefix_selection(ast.parse(sel % extra).body[0])
         return tabulate_prefix_selection(idx_, st_, b_, kx.mod, kx, 'C05.prefix-pick.control')[0]
     chk.control('C05.prefix-pick', len(seltab('')) > 0 and not seltab('                break\n'))
+    def _three(u):
+        for a, b in (('(', ')'), ('[', ']'), ('{', '}'), ('<', ')')):
+            if u.startswith(a) and u.endswith(b):
+                return u[1:len(u) - 1]
+        return u
+    chk.control('C05.brackets', bool(bracket_mismatches(_three)) and bool(bracket_mismatches(lambda x: x))
+                and not bracket_mismatches(strip_brackets))
     chk.control('C05.blank', parser_lookup(um, ' pinta', '')[0] is None)
     pre = mech['preprocess']
     chk.control('C05.case', pre('5 Rwandan Zorkmid ') == '5 rwandan zorkmid '
